@@ -1,0 +1,11 @@
+//go:build verif
+
+package backend
+
+import log "github.com/sirupsen/logrus"
+
+// VerifOsPath is DirectoryBackend.osPath for a backend rooted at `root` (no file system access).
+func VerifOsPath(root, path string) (string, error) {
+	b := &DirectoryBackend{root: root, log: log.NewEntry(log.StandardLogger())}
+	return b.osPath(path)
+}
